@@ -93,12 +93,8 @@ func (s *metricSchemaStore) genFieldID(id metric.ID, f field.Meta, limits *model
 	s.lock.Lock()
 	defer s.lock.Unlock()
 
-	if schema == nil {
-		// create new schema
-		schema = &metric.Schema{}
-	}
-	// put into schema if schema not exist under mutable store
-	s.mutable.PutIfNotExist(uint32(id), schema)
+	// the schema was read before the lock was taken, another writer may have put its one into mutable store meanwhile
+	schema = s.mutableSchema(id, schema)
 
 	fm, ok := schema.Fields.Find(f.Name)
 	if ok {
@@ -115,6 +111,21 @@ func (s *metricSchemaStore) genFieldID(id metric.ID, f field.Meta, limits *model
 	return fID, nil
 }
 
+// mutableSchema returns the schema of the metric under mutable store, all writers must modify that one;
+// the given schema(nil: create new schema) is put into mutable store only if it has none for the metric.
+// NOTE: must be invoked holding the write lock.
+func (s *metricSchemaStore) mutableSchema(id metric.ID, schema *metric.Schema) *metric.Schema {
+	if stored, ok := s.mutable.Get(uint32(id)); ok {
+		return stored
+	}
+	if schema == nil {
+		// create new schema
+		schema = &metric.Schema{}
+	}
+	s.mutable.Put(uint32(id), schema)
+	return schema
+}
+
 // genTagKeyID generates tag key id if tag key not exist.
 func (s *metricSchemaStore) genTagKeyID(id metric.ID, tagKey []byte, limits *models.Limits,
 	createFn func() uint32,
@@ -127,12 +138,8 @@ func (s *metricSchemaStore) genTagKeyID(id metric.ID, tagKey []byte, limits *mod
 	s.lock.Lock()
 	defer s.lock.Unlock()
 
-	if schema == nil {
-		// create new schema
-		schema = &metric.Schema{}
-	}
-	// put into schema if schema not exist under mutable store
-	s.mutable.PutIfNotExist(uint32(id), schema)
+	// the schema was read before the lock was taken, another writer may have put its one into mutable store meanwhile
+	schema = s.mutableSchema(id, schema)
 
 	tm, ok := schema.TagKeys.Find(strutil.ByteSlice2String(tagKey))
 	if ok {
